@@ -431,6 +431,10 @@ func (t tcase) probes() []probe {
 	// the root prototype lists its own names like any object, and objects made from evaluated text (evalEnv) have
 	// public and private names like objects written as literals
 	if n == 1 {
+		// a _missing that itself asks the receiver for another absent name (answered by the same _missing): every absent
+		// name goes to the first _missing found, also while that _missing is running
+		ps = append(ps, probe{src: "{|hm| {|hk| [hm.foo, hk.bar, hk.own, [hm, hk]@baz, hm.foo, hm.unknown(7)]}(hm.bear({own: 1}))}({_missing: m{|name, a| return \"u:\" + a.S if name == 'unknown; .unknown(name)}})",
+			want: `["u:foo", "u:bar", 1, ["u:baz", "u:baz"], "u:foo", "u:7"]`, what: "_missing-asks-for-another-absent-name"})
 		ps = append(ps, probe{src: "[Obj.keys.has?(\"bro\"), v0.which('bro) == Obj, v0.which('bro).keys.has?(\"bro\"), Obj.keys.has?(\"bear\")]", want: "[true, true, true, false]", what: "keys-of-root-prototypes"})
 		ps = append(ps, probe{src: "\"ea := 1; _ep := 2; eb := 3\".evalEnv.{|ee| [ee.keys, ee.keys(private?: true), ee.values, ee.bear({z: 9}).ea, ee.bear({z: 9}).keys, ee.which('ea) == ee]}", want: `[["ea", "eb"], ["ea", "eb", "_ep"], [1, 3], 1, ["z"], true]`, what: "object-from-evaluated-text"})
 	}
